@@ -1,17 +1,22 @@
 //! C18: per-document work directory, documented environment, clean-up.
-//! (1) the real `UniqueNamer` (src/bin/utils/namer.rs is compiled into this harness with
-//!     `#[path]`, so it is always the current source) vs. the Lean model, on a real directory;
-//! (2) end-to-end runs of the binary: `pwd`/`env` probes written by the tests, listing of TMPDIR
-//!     and of a `--work-directory` afterwards, every outcome class, concurrent scrut processes.
+//! (1) the real `TestEnvironment` (src/bin/utils/environment.rs, with namer.rs, is compiled into this
+//!     harness from the repository it is built against — build.rs — so it is always the current
+//!     source) driven in-process vs. the Lean model (`envapi`): new / init_test_file on one
+//!     environment / drop, on real directories;
+//! (2) end-to-end runs of the binary vs. the Lean model of the document loop (`envrun`): `pwd`/`env`/
+//!     `find` probes written by the first test case, listing of TMPDIR and of a `--work-directory`
+//!     afterwards, every outcome class; direct oracles on the same runs; concurrent scrut processes;
+//! (3) the real `UniqueNamer` vs. the Lean model (`namer`), on a real directory.
 use crate::common::*;
 use std::collections::{BTreeMap, BTreeSet};
 use std::path::{Path, PathBuf};
 
-#[allow(dead_code)]
-#[path = "/repo/src/bin/utils/namer.rs"]
-mod namer;
+// src/bin/utils/{namer,environment}.rs of the repository this harness is built against (build.rs
+// takes the location from the `scrut` dependency in Cargo.toml), compiled in as they are
+include!(concat!(env!("OUT_DIR"), "/binutils.rs"));
+use binutils::{environment, namer};
 
-fn keep(prop: &str, fails: Vec<(String, String)>) -> Vec<(String, String)> {
+fn keep_own(prop: &str, fails: Vec<(String, String)>) -> Vec<(String, String)> {
     fails.into_iter().filter(|(c, _)| c.starts_with(prop)).collect()
 }
 
@@ -48,7 +53,7 @@ fn namer_case(prop: &str, existing: Vec<String>, reqs: Vec<String>, root: &Path,
     };
     let _ = std::fs::remove_dir_all(&dir);
     let f = |v: &Vec<String>| if v.is_empty() { "-".to_string() } else { v.iter().map(|n| hex(n.as_bytes())).collect::<Vec<_>>().join(",") };
-    CaseRec { op: format!("namer {} {}", f(&existing), f(&reqs)), impl_out, oracle_fail: keep(prop, fails), nontrivial: reqs.len() >= 2, tags: vec![format!("namer:reqs={}", reqs.len())] }
+    CaseRec { op: format!("namer {} {}", f(&existing), f(&reqs)), impl_out, oracle_fail: keep_own(prop, fails), nontrivial: reqs.len() >= 2, tags: vec![format!("namer:reqs={}", reqs.len())] }
 }
 
 fn scrut_bin() -> String {
@@ -63,6 +68,12 @@ enum Kind {
     Skip,
     ParseError,
     Kill,
+    /// Cram document whose script ends early (`exit 3`): `bail!` after execution
+    ExecError,
+    /// front-matter `prepend:` of a missing document: error after `TestEnvironment::new`, before `init_test_file`
+    PrependError,
+    /// front-matter `shell:` that does not exist: error before `TestEnvironment::new`
+    NoShell,
 }
 #[derive(Clone, Copy, Debug, PartialEq)]
 enum Mode {
@@ -70,49 +81,356 @@ enum Mode {
     WorkDir,
     Keep,
     MissingShell,
+    /// `--work-directory` names a directory that does not exist
+    WorkDirMissing,
 }
 
 const DOCUMENTED: [&str; 11] = ["TESTDIR", "TESTFILE", "TESTSHELL", "TMPDIR", "LANG", "LANGUAGE", "LC_ALL", "TZ", "COLUMNS", "CDPATH", "GREP_OPTIONS"];
+/// every variable scrut itself may set for a test case (documented + Cram compatibility + SCRUT_TEST)
+const OBSERVED_VARS: [&str; 15] = ["TESTDIR", "TESTFILE", "TESTSHELL", "TMPDIR", "LANG", "LANGUAGE", "LC_ALL", "TZ", "COLUMNS", "CDPATH", "GREP_OPTIONS", "CRAMTMP", "TMP", "TEMP", "SCRUT_TEST"];
+
+fn hexs(s: &str) -> String {
+    hex(s.as_bytes())
+}
+
+/// Maps real paths to the paths of the model's world: real roots are replaced by model prefixes
+/// (longest real root first), random name parts by the labels found for them.
+struct Canon {
+    /// (real prefix, model prefix without leading/trailing slash; "" = the model's root)
+    roots: Vec<(String, String)>,
+    names: BTreeMap<String, String>,
+}
+
+impl Canon {
+    fn new(mut roots: Vec<(String, String)>) -> Self {
+        roots.sort_by(|a, b| b.0.len().cmp(&a.0.len()));
+        Canon { roots, names: BTreeMap::new() }
+    }
+    /// components of a real path in the model's world (`None`: outside every root)
+    fn comps(&self, real: &str) -> Option<Vec<String>> {
+        for (r, m) in &self.roots {
+            if real == r || real.starts_with(&format!("{r}/")) {
+                let rest = &real[r.len()..];
+                let mut v: Vec<String> = m.split('/').filter(|c| !c.is_empty()).map(|c| c.to_string()).collect();
+                v.extend(rest.split('/').filter(|c| !c.is_empty()).map(|c| c.to_string()));
+                return Some(v);
+            }
+        }
+        None
+    }
+    fn label(&self, comps: &[String], extra: &BTreeMap<String, String>) -> Vec<String> {
+        comps.iter().map(|c| extra.get(c).or_else(|| self.names.get(c)).cloned().unwrap_or_else(|| c.clone())).collect()
+    }
+    /// text of a path as the driver prints it
+    fn path(&self, real: &str, extra: &BTreeMap<String, String>) -> String {
+        match self.comps(real) {
+            Some(c) if c.is_empty() => ".".into(),
+            Some(c) => self.label(&c, extra).join("/"),
+            None => format!("<outside:{real}>"),
+        }
+    }
+    /// text of a variable value: a value that starts with a real root is rewritten like a path
+    fn value(&self, v: &str, extra: &BTreeMap<String, String>) -> String {
+        match self.comps(v) {
+            Some(c) if v.starts_with('/') => {
+                if c.is_empty() {
+                    "/".into()
+                } else {
+                    format!("/{}", self.label(&c, extra).join("/"))
+                }
+            }
+            _ => v.to_string(),
+        }
+    }
+    fn listing(&self, reals: &[String], extra: &BTreeMap<String, String>) -> String {
+        let set: BTreeSet<String> = reals.iter().map(|r| self.path(r, extra)).collect();
+        set.into_iter().collect::<Vec<_>>().join(",")
+    }
+}
+
+/// all directories at or below `root` (absolute path strings), nothing if it does not exist
+fn walk_dirs(root: &Path, out: &mut Vec<String>) {
+    if !root.is_dir() || root.is_symlink() {
+        return;
+    }
+    out.push(root.to_string_lossy().to_string());
+    if let Ok(rd) = std::fs::read_dir(root) {
+        for e in rd.filter_map(|e| e.ok()) {
+            let p = e.path();
+            if p.is_dir() && !p.is_symlink() {
+                walk_dirs(&p, out);
+            }
+        }
+    }
+}
+
+fn canonical_bash() -> String {
+    which::which("bash").ok().and_then(|p| dunce::canonicalize(p).ok()).map(|p| p.to_string_lossy().to_string()).unwrap_or("/bin/bash".into())
+}
+
+fn io_class(e: &anyhow::Error) -> &'static str {
+    for c in e.chain() {
+        if let Some(io) = c.downcast_ref::<std::io::Error>() {
+            return match io.kind() {
+                std::io::ErrorKind::NotFound => "no-parent",
+                std::io::ErrorKind::AlreadyExists => "exists",
+                _ => "other",
+            };
+        }
+    }
+    "other"
+}
+
+#[derive(Clone, Copy, Debug, PartialEq)]
+enum ApiMode {
+    Default,
+    Keep,
+    WorkDir,
+    WorkDirMissing,
+}
+const API_MODES: [ApiMode; 4] = [ApiMode::Default, ApiMode::Keep, ApiMode::WorkDir, ApiMode::WorkDirMissing];
+/// (directory index, file name, cram compatibility)
+const API_DOCS: [(usize, &str, bool); 3] = [(0, "doc.md", false), (1, "doc.md", true), (0, "x y.t", false)];
+const API_PRE: [&[&str]; 4] = [&[], &["doc.md"], &["doc.md", "doc.md-1"], &["x y.t-1"]];
+
+/// The real `TestEnvironment` (src/bin/utils/environment.rs compiled into the harness), in-process:
+/// `new`, directories `pre` appear in the work directory, `init_test_file` for every document on
+/// the SAME environment, drop. Compared with the model: directory variants, work directories,
+/// variable lists in code order, the directories below the environment's own roots and the user
+/// directory before and after the drop. The process-wide temporary directory is shared with other
+/// cases, so only the environment's own subtrees are listed.
+fn api_case(prop: &str, mode: ApiMode, pre: &[&str], docs: &[(usize, &str, bool)], root: &Path, tag: &str) -> CaseRec {
+    let scratch = root.join(format!("api-{tag}"));
+    let _ = std::fs::remove_dir_all(&scratch);
+    std::fs::create_dir_all(scratch.join("U/old")).unwrap();
+    std::fs::create_dir_all(scratch.join("D0")).unwrap();
+    std::fs::create_dir_all(scratch.join("D1")).unwrap();
+    let scratch = scratch.canonicalize().unwrap();
+    let user = scratch.join("U");
+    let tmp_root = std::env::temp_dir();
+    let mut roots = vec![(tmp_root.to_string_lossy().trim_end_matches('/').to_string(), "T".to_string())];
+    if let Ok(c) = tmp_root.canonicalize() {
+        roots.push((c.to_string_lossy().to_string(), "T".to_string()));
+    }
+    for d in ["U", "D0", "D1"] {
+        roots.push((scratch.join(d).to_string_lossy().to_string(), d.to_string()));
+    }
+    let mut canon = Canon::new(roots);
+    let none = BTreeMap::new();
+    let shell = "/bin/bash";
+    let provided: Option<PathBuf> = match mode {
+        ApiMode::WorkDir => Some(user.clone()),
+        ApiMode::WorkDirMissing => Some(scratch.join("nowhere")),
+        _ => None,
+    };
+    let keep = mode == ApiMode::Keep;
+    let mut fails: Vec<(String, String)> = vec![];
+    let list = |canon: &Canon, own: &[PathBuf]| -> String {
+        let mut v = vec![];
+        for r in own {
+            walk_dirs(r, &mut v);
+        }
+        canon.listing(&v, &BTreeMap::new())
+    };
+    let impl_out = match guarded(|| environment::TestEnvironment::new(Path::new(shell), provided.as_deref(), keep)) {
+        Err(p) => {
+            fails.push(("C18:api-crash".into(), format!("TestEnvironment::new panicked: {p}")));
+            "crash".to_string()
+        }
+        Ok(Err(e)) => format!("new=error:{} | final={}", io_class(&e), list(&canon, &[user.clone()])),
+        Ok(Ok(mut env)) => {
+            let variant = |d: &environment::EnvironmentDirectory| match d {
+                environment::EnvironmentDirectory::Ephemeral(_) => "ephemeral",
+                environment::EnvironmentDirectory::UserProvided(_) => "user-provided",
+                environment::EnvironmentDirectory::Kept(_) => "kept",
+            };
+            let (wk, wp) = (variant(&env.work_directory), env.work_directory.as_path_buf());
+            let (tk, tp) = (variant(&env.tmp_directory), env.tmp_directory.as_path_buf());
+            // random names -> labels (only names with the documented prefix are recognised)
+            let last = |p: &Path| p.file_name().map(|n| n.to_string_lossy().to_string()).unwrap_or_default();
+            if wk != "user-provided" && last(&wp).starts_with("execution.") {
+                canon.names.insert(last(&wp), "execution.#0".into());
+            }
+            if tk != "user-provided" && last(&tp).starts_with("temp.") {
+                canon.names.insert(last(&tp), "temp.#0".into());
+            }
+            let mut parts = vec![format!("new=ok work={wk}:{} tmp={tk}:{}", canon.path(&wp.to_string_lossy(), &none), canon.path(&tp.to_string_lossy(), &none))];
+            for n in pre {
+                let _ = std::fs::create_dir(wp.join(n));
+            }
+            let mut wds: Vec<PathBuf> = vec![];
+            for (i, (dir, file, cram)) in docs.iter().enumerate() {
+                let path = scratch.join(format!("D{dir}")).join(file);
+                match guarded(|| env.init_test_file(&path, *cram)) {
+                    Err(p) => {
+                        fails.push(("C18:api-crash".into(), format!("init_test_file panicked: {p}")));
+                        parts.push(format!("doc{i}: crash"));
+                    }
+                    Ok(Err(_)) => parts.push(format!("doc{i}: error")),
+                    Ok(Ok((wd, vars))) => {
+                        let vs: Vec<String> = vars.iter().map(|(k, v)| format!("{k}={}", canon.value(v, &none))).collect();
+                        parts.push(format!("doc{i}: wd={} vars={}", canon.path(&wd.to_string_lossy(), &none), vs.join(";")));
+                        // direct oracles
+                        if !wd.is_dir() {
+                            fails.push(("C18:api-workdir-missing".into(), format!("work directory {} does not exist", wd.display())));
+                        }
+                        if provided.is_none() || keep {
+                            if wds.contains(&wd) {
+                                fails.push(("C18:api-workdir-shared".into(), format!("two documents of one environment got {}", wd.display())));
+                            }
+                            if pre.iter().any(|n| wp.join(n) == wd) {
+                                fails.push(("C18:api-workdir-preexisting".into(), format!("{} existed before init_test_file", wd.display())));
+                            }
+                        }
+                        let tmpdir = vars.iter().find(|(k, _)| k == "TMPDIR").map(|(_, v)| v.clone()).unwrap_or_default();
+                        if Path::new(&tmpdir) != tp || !tp.is_dir() {
+                            fails.push(("C18:api-tmpdir".into(), format!("TMPDIR={tmpdir:?}, the environment's directory is {}", tp.display())));
+                        }
+                        wds.push(wd);
+                    }
+                }
+            }
+            let own = vec![user.clone(), wp.clone(), tp.clone()];
+            parts.push(format!("after-init={}", list(&canon, &own)));
+            if let Err(p) = guarded(move || drop(env)) {
+                fails.push(("C18:api-crash".into(), format!("drop panicked: {p}")));
+            }
+            parts.push(format!("after-drop={}", list(&canon, &own)));
+            if !user.is_dir() || !user.join("old").is_dir() {
+                fails.push(("C18:user-dir-removed".into(), "the user's directory (or what was in it) is gone after drop".into()));
+            }
+            if !keep {
+                for p in [&wp, &tp] {
+                    if *p != user && p.exists() {
+                        fails.push(("C18:leftover".into(), format!("{} still exists after drop", p.display())));
+                    }
+                }
+            } else {
+                for p in [&wp, &tp] {
+                    if !p.is_dir() {
+                        fails.push(("C18:keep-listing".into(), format!("kept directory {} is gone", p.display())));
+                    }
+                    if p.starts_with(&tmp_root) && *p != tmp_root {
+                        let _ = std::fs::remove_dir_all(p);
+                    }
+                }
+            }
+            parts.join(" | ")
+        }
+    };
+    let _ = std::fs::remove_dir_all(&scratch);
+    let prov = match mode {
+        ApiMode::WorkDir => hexs("U"),
+        ApiMode::WorkDirMissing => hexs("nowhere"),
+        _ => "none".into(),
+    };
+    let pre_s = if pre.is_empty() { ".".to_string() } else { pre.iter().map(|n| hexs(n)).collect::<Vec<_>>().join(",") };
+    let docs_s = if docs.is_empty() {
+        ".".to_string()
+    } else {
+        docs.iter().map(|(d, f, c)| format!("{}:{}:{}:c:.:.:{}:0", hexs(&format!("D{d}")), hexs(f), *c as u8, hexs(&format!("/D{d}/{f}")))).collect::<Vec<_>>().join(",")
+    };
+    let fs0 = ["", "T", "U", "U/old", "D0", "D1"].iter().map(|p| hexs(p)).collect::<Vec<_>>().join(",");
+    CaseRec {
+        op: format!("envapi {} {} {prov} {} {pre_s} {} {fs0} {docs_s} case=api.{tag}", hexs("T"), hexs(shell), keep as u8, hexs("U")),
+        impl_out,
+        oracle_fail: keep_own(prop, fails),
+        nontrivial: !docs.is_empty(),
+        tags: vec![format!("api:mode={mode:?}"), format!("api:docs={}", docs.len()), format!("api:pre={}", pre.len())],
+    }
+}
+
+/// decode the index of the exhaustive in-process stream
+fn api_exhaustive(prop: &str, idx: u64, root: &Path) -> CaseRec {
+    let mut r = idx;
+    let mode = API_MODES[(r % 4) as usize];
+    r /= 4;
+    let pre = API_PRE[(r % 4) as usize];
+    r /= 4;
+    // sequences of length 0..=3 over API_DOCS: 1 + 3 + 9 + 27 = 40
+    let (len, mut k) = if r < 1 { (0, 0) } else if r < 4 { (1, r - 1) } else if r < 13 { (2, r - 4) } else { (3, r - 13) };
+    let mut docs = vec![];
+    for _ in 0..len {
+        docs.push(API_DOCS[(k % 3) as usize]);
+        k /= 3;
+    }
+    api_case(prop, mode, pre, &docs, root, &format!("x{idx}"))
+}
+const API_EXHAUSTIVE_TOTAL: u64 = 4 * 4 * 40;
+
+struct DocSpec {
+    kind: Kind,
+    cram: bool,
+    name: String,
+    /// 0: the test cases create nothing, 1: `s` below the work directory and below $TMPDIR, 2: `s/t` below the work directory
+    mk: usize,
+}
 
 fn e2e_case(prop: &str, idx: u64, seed: u64, root: &Path) -> CaseRec {
     let mut rng = Rng::fork(seed, 31, idx);
     let ndocs = rng.range(1, 3);
-    let mode = *rng.pick(&[Mode::Default, Mode::Default, Mode::WorkDir, Mode::Keep, Mode::MissingShell]);
-    let cram = rng.chance(1, 4);
+    let mode = *rng.pick(&[Mode::Default, Mode::Default, Mode::Default, Mode::WorkDir, Mode::WorkDir, Mode::Keep, Mode::Keep, Mode::MissingShell, Mode::WorkDirMissing]);
     let same_names = rng.chance(2, 3);
-    let kinds: Vec<Kind> = (0..ndocs).map(|_| *rng.pick(&[Kind::Pass, Kind::Pass, Kind::Fail, Kind::Timeout, Kind::Skip, Kind::ParseError, Kind::Kill])).collect();
+    let mut specs: Vec<DocSpec> = vec![];
+    for di in 0..ndocs {
+        let kind = *rng.pick(&[Kind::Pass, Kind::Pass, Kind::Pass, Kind::Pass, Kind::Pass, Kind::Pass, Kind::Fail, Kind::Fail, Kind::Timeout, Kind::Skip, Kind::Skip, Kind::Kill, Kind::ParseError, Kind::ExecError, Kind::PrependError, Kind::NoShell]);
+        let cram = match kind {
+            Kind::ExecError => true,
+            Kind::PrependError | Kind::NoShell => false,
+            _ => rng.chance(1, 4),
+        };
+        let ext = if cram { "t" } else { "md" };
+        let name = if same_names { format!("doc.{ext}") } else { format!("doc{di}.{ext}") };
+        specs.push(DocSpec { kind, cram, name, mk: rng.range(0, 2) });
+    }
     let dir = root.join(format!("e2e-{idx}"));
     let _ = std::fs::remove_dir_all(&dir);
+    std::fs::create_dir_all(&dir).unwrap();
+    let dir = dir.canonicalize().unwrap();
     let tmp = dir.join("tmp");
     let probe = dir.join("probe");
     let user = dir.join("userwork");
     std::fs::create_dir_all(&tmp).unwrap();
     std::fs::create_dir_all(&probe).unwrap();
-    std::fs::create_dir_all(&user).unwrap();
+    std::fs::create_dir_all(user.join("old")).unwrap();
+    let kinds: Vec<Kind> = specs.iter().map(|s| s.kind).collect();
     let mut paths: Vec<PathBuf> = vec![];
-    for (di, k) in kinds.iter().enumerate() {
+    let mut t0_line: Vec<usize> = vec![];
+    for (di, sp) in specs.iter().enumerate() {
+        let k = &sp.kind;
         let sub = dir.join(format!("d{di}"));
         std::fs::create_dir_all(&sub).unwrap();
-        let ext = if cram { "t" } else { "md" };
-        let name = if same_names { format!("doc.{ext}") } else { format!("doc{di}.{ext}") };
-        let p = sub.join(name);
+        let p = sub.join(&sp.name);
         let pr = |t: usize| format!("pwd > {0}/D{1}T{2}.pwd; env > {0}/D{1}T{2}.env", probe.display(), di, t);
+        let mk = ["true", "mkdir -p s \"$TMPDIR/s\"", "mkdir -p s/t"][sp.mk];
+        // the first test case creates the directories, then records what it sees
+        let first = format!("{mk}; {}; find {} {} -type d > {}/D{di}.ls", pr(0), tmp.display(), user.display(), probe.display());
         let second = match k {
-            Kind::Pass => "echo ok".to_string(),
             Kind::Fail => "echo bad".to_string(),
             Kind::Timeout => "sleep 3; echo ok".to_string(),
             Kind::Skip => "(exit 80)".to_string(),
-            Kind::ParseError => "echo ok".to_string(),
             Kind::Kill => "kill -9 $$".to_string(),
+            _ => "echo ok".to_string(),
         };
-        let text = if cram {
+        let text = if sp.cram {
             let bad = if *k == Kind::ParseError { "  [a (regex)\n" } else { "" };
-            format!("t0\n  $ {}; echo ok\n  ok\n\nt1\n  $ {}; {}\n  ok\n{}\nt2\n  $ {}; echo ok\n  ok\n", pr(0), pr(1), if *k == Kind::Timeout || *k == Kind::Kill { "echo ok".to_string() } else { second.clone() }, bad, pr(2))
+            if *k == Kind::ExecError {
+                format!("t0\n  $ {first}; echo ok\n  ok\n\nt1\n  $ exit 3\n\nt2\n  $ echo never\n  never\n")
+            } else {
+                format!("t0\n  $ {first}; echo ok\n  ok\n\nt1\n  $ {}; {}\n  ok\n{}\nt2\n  $ {}; echo ok\n  ok\n", pr(1), if *k == Kind::Timeout || *k == Kind::Kill { "echo ok".to_string() } else { second.clone() }, bad, pr(2))
+            }
         } else {
+            let front = match k {
+                Kind::PrependError => "---\nprepend: [nonexistent.md]\n---\n\n",
+                Kind::NoShell => "---\nshell: /nonexistent/shell\n---\n\n",
+                _ => "",
+            };
             let bad = if *k == Kind::ParseError { "[a (regex)\n" } else { "" };
             let cfg = if *k == Kind::Timeout { " {timeout: 300ms}" } else { "" };
-            format!("# t0\n\n```scrut\n$ {}; echo ok\nok\n```\n\n# t1\n\n```scrut{}\n$ {}; {}\nok\n{}```\n\n# t2\n\n```scrut\n$ {}; echo ok\nok\n```\n", pr(0), cfg, pr(1), second, bad, pr(2))
+            format!("{front}# t0\n\n```scrut\n$ {first}; echo ok\nok\n```\n\n# t1\n\n```scrut{}\n$ {}; {}\nok\n{}```\n\n# t2\n\n```scrut\n$ {}; echo ok\nok\n```\n", cfg, pr(1), second, bad, pr(2))
         };
+        // 1-based line of the shell expression of the first test case
+        t0_line.push(text.lines().position(|l| l.trim_start().starts_with("$ ")).map(|i| i + 1).unwrap_or(0));
         std::fs::write(&p, text).unwrap();
         paths.push(p);
     }
@@ -122,6 +440,9 @@ fn e2e_case(prop: &str, idx: u64, seed: u64, root: &Path) -> CaseRec {
         Mode::WorkDir => {
             cmd.arg("--work-directory").arg(&user);
         }
+        Mode::WorkDirMissing => {
+            cmd.arg("--work-directory").arg(dir.join("nowhere"));
+        }
         Mode::Keep => {
             cmd.arg("--keep-temporary-directories");
         }
@@ -130,6 +451,13 @@ fn e2e_case(prop: &str, idx: u64, seed: u64, root: &Path) -> CaseRec {
         }
         Mode::Default => {}
     }
+    // scrut's own environment: nothing it could inherit for TMP, TEMP, CRAMTMP, SCRUT_TEST (which it sets
+    // only for some documents), and a WRONG value for every documented variable: "set afresh" means
+    // that none of these reaches a test case
+    cmd.env_clear().env("PATH", std::env::var("PATH").unwrap_or_default()).env("HOME", std::env::var("HOME").unwrap_or_default());
+    for v in DOCUMENTED {
+        cmd.env(v, "/inherited/by/scrut");
+    }
     let out = cmd.args(&paths).current_dir(&dir).env("TMPDIR", &tmp).output().expect("run scrut");
     let code = out.status.code().unwrap_or(-1);
     let mut fails = vec![];
@@ -137,7 +465,7 @@ fn e2e_case(prop: &str, idx: u64, seed: u64, root: &Path) -> CaseRec {
     let left: Vec<String> = std::fs::read_dir(&tmp).map(|r| r.filter_map(|e| e.ok()).map(|e| e.file_name().to_string_lossy().to_string()).collect()).unwrap_or_default();
     let parse_error = kinds.contains(&Kind::ParseError);
     match mode {
-        Mode::Keep if !parse_error => {
+        Mode::Keep if !parse_error && kinds[0] != Kind::NoShell => {
             // one execution.* and one temp.* per document that was started
             let ok = left.iter().all(|n| n.starts_with("execution.") || n.starts_with("temp."));
             if !ok || left.is_empty() {
@@ -152,8 +480,8 @@ fn e2e_case(prop: &str, idx: u64, seed: u64, root: &Path) -> CaseRec {
         }
     }
     let user_left: Vec<String> = std::fs::read_dir(&user).map(|r| r.filter_map(|e| e.ok()).map(|e| e.file_name().to_string_lossy().to_string()).collect()).unwrap_or_default();
-    if !user.exists() {
-        fails.push(("C18:user-dir-removed".into(), "the directory given with --work-directory no longer exists".into()));
+    if !user.exists() || !user.join("old").is_dir() {
+        fails.push(("C18:user-dir-removed".into(), "the directory given with --work-directory (or what was in it) no longer exists".into()));
     }
     if user_left.iter().any(|n| n.starts_with("temp.")) {
         fails.push(("C18:user-dir-temp-left".into(), format!("temporary directory left inside --work-directory: {:?}", user_left)));
@@ -171,6 +499,14 @@ fn e2e_case(prop: &str, idx: u64, seed: u64, root: &Path) -> CaseRec {
                         fails.push(("C18:env-missing".into(), format!("document {di} test {t}: {v} is not set")));
                     }
                 }
+                // the documented constants, whatever scrut itself inherited
+                for (k, want) in [("LANG", "C"), ("LANGUAGE", "C"), ("LC_ALL", "C"), ("TZ", "GMT"), ("COLUMNS", "80"), ("CDPATH", ""), ("GREP_OPTIONS", "")] {
+                    if let Some(got) = vars.get(k) {
+                        if *got != want {
+                            fails.push(("C18:env-value".into(), format!("document {di} test {t}: {k}={got:?}, documented is {want:?}")));
+                        }
+                    }
+                }
                 let doc_name = paths[di].file_name().unwrap().to_string_lossy().to_string();
                 if vars.get("TESTFILE") != Some(&doc_name.as_str()) {
                     fails.push(("C18:env-testfile".into(), format!("TESTFILE={:?} for {doc_name}", vars.get("TESTFILE"))));
@@ -178,7 +514,7 @@ fn e2e_case(prop: &str, idx: u64, seed: u64, root: &Path) -> CaseRec {
                 if vars.get("TESTDIR").map(|d| Path::new(d).canonicalize().ok()) != Some(paths[di].parent().unwrap().canonicalize().ok()) {
                     fails.push(("C18:env-testdir".into(), format!("TESTDIR={:?}", vars.get("TESTDIR"))));
                 }
-                if !cram {
+                if !specs[di].cram {
                     let want_prefix = format!("{}:", paths[di].display());
                     let st = vars.get("SCRUT_TEST").copied().unwrap_or("");
                     let line_ok = st.rsplit(':').next().and_then(|l| l.parse::<usize>().ok()).is_some();
@@ -208,21 +544,112 @@ fn e2e_case(prop: &str, idx: u64, seed: u64, root: &Path) -> CaseRec {
             }
         }
     }
+    // --- the same run in the model's terms: everything relative to the scratch directory
+    let dir_s = dir.to_string_lossy().to_string();
+    let mut canon = Canon::new(vec![(dir_s.clone(), String::new())]);
+    let mut own: Vec<BTreeMap<String, String>> = vec![BTreeMap::new(); ndocs];
+    let mut envs: Vec<Option<BTreeMap<String, String>>> = vec![None; ndocs];
+    for di in 0..ndocs {
+        if let Some(p) = pwd.get(&(di, 0)) {
+            let env = std::fs::read_to_string(probe.join(format!("D{di}T0.env"))).unwrap_or_default();
+            let vars: BTreeMap<String, String> = env.lines().filter_map(|l| l.split_once('=')).map(|(a, b)| (a.to_string(), b.to_string())).collect();
+            if let Some(c) = canon.comps(p) {
+                if c.len() >= 2 && c[0] == "tmp" && c[1].starts_with("execution.") {
+                    own[di].insert(c[1].clone(), format!("execution.#{di}"));
+                }
+            }
+            if let Some(c) = vars.get("TMPDIR").and_then(|t| canon.comps(t)) {
+                if c.len() == 2 && (c[0] == "tmp" || c[0] == "userwork") && c[1].starts_with("temp.") {
+                    own[di].insert(c[1].clone(), format!("temp.#{di}"));
+                }
+            }
+            envs[di] = Some(vars);
+        }
+    }
+    for m in &own {
+        for (k, v) in m {
+            canon.names.entry(k.clone()).or_insert(v.clone());
+        }
+    }
+    // directories of documents that never reached their test cases cannot be attributed
+    let mut after: Vec<String> = vec![];
+    walk_dirs(&tmp, &mut after);
+    walk_dirs(&user, &mut after);
+    for a in &after {
+        if let Some(c) = canon.comps(a) {
+            if c.len() >= 2 && (c[0] == "tmp" || c[0] == "userwork") && !canon.names.contains_key(&c[1]) {
+                if c[1].starts_with("execution.") {
+                    canon.names.insert(c[1].clone(), "execution.#?".into());
+                } else if c[1].starts_with("temp.") {
+                    canon.names.insert(c[1].clone(), "temp.#?".into());
+                }
+            }
+        }
+    }
+    let mut parts = vec![format!("finished={}", if code == 1 || code == -1 { 0 } else { 1 })];
+    for di in 0..ndocs {
+        if let (Some(p), Some(vars)) = (pwd.get(&(di, 0)), &envs[di]) {
+            let mut vs: Vec<String> = OBSERVED_VARS.iter().filter_map(|k| vars.get(*k).map(|v| format!("{k}={}", canon.value(v, &own[di])))).collect();
+            vs.sort();
+            let ls = std::fs::read_to_string(probe.join(format!("D{di}.ls"))).unwrap_or_default();
+            // `.state.XXXX` below $TMPDIR belongs to the Markdown executor (stateful_executor.rs), not to the environment
+            let during: Vec<String> = ls.lines().filter(|l| !l.split('/').any(|c| c.starts_with(".state."))).map(|l| l.to_string()).collect();
+            parts.push(format!("doc{di}: wd={} vars={} during={}", canon.path(p, &own[di]), vs.join(";"), canon.listing(&during, &own[di])));
+        }
+    }
+    let none = BTreeMap::new();
+    parts.push(format!("final={}", canon.listing(&after, &none)));
+    let impl_out = parts.join(" | ");
+    let shell = canonical_bash();
+    let mut fs0: Vec<String> = vec!["".into(), "tmp".into(), "userwork".into(), "userwork/old".into(), "probe".into()];
+    for di in 0..ndocs {
+        fs0.push(format!("d{di}"));
+    }
+    let docs_s: Vec<String> = specs
+        .iter()
+        .enumerate()
+        .map(|(di, sp)| {
+            let ending = if mode == Mode::MissingShell {
+                "s"
+            } else {
+                match sp.kind {
+                    Kind::ExecError => "x",
+                    Kind::PrependError => "p",
+                    Kind::NoShell => "s",
+                    _ => "c",
+                }
+            };
+            let (mkw, mkt) = match sp.mk {
+                1 => (hexs("s"), hexs("s")),
+                2 => (format!("{}+{}", hexs("s"), hexs("s/t")), ".".to_string()),
+                _ => (".".to_string(), ".".to_string()),
+            };
+            format!("{}:{}:{}:{ending}:{mkw}:{mkt}:{}:{}", hexs(&format!("d{di}")), hexs(&sp.name), sp.cram as u8, hexs(&format!("/d{di}/{}", sp.name)), t0_line[di])
+        })
+        .collect();
+    let provided = match mode {
+        Mode::WorkDir => hexs("userwork"),
+        Mode::WorkDirMissing => hexs("nowhere"),
+        _ => "none".to_string(),
+    };
+    let op = format!(
+        "envrun {} {} {provided} {} {} {},{} {} {} case=e2e.{seed}.{idx}",
+        hexs("tmp"),
+        hexs(if mode == Mode::MissingShell { "/nonexistent/shell" } else { &shell }),
+        (mode == Mode::Keep) as u8,
+        !parse_error as u8,
+        hexs("tmp"),
+        hexs("userwork"),
+        fs0.iter().map(|p| hexs(p)).collect::<Vec<_>>().join(","),
+        docs_s.join(",")
+    );
     let _ = std::fs::remove_dir_all(&dir);
     CaseRec {
-        // no model op for end-to-end runs: the namer model is exercised separately; keep the protocol uniform
-        op: format!("namer - {}", (0..ndocs).map(|_| hex(b"doc.md")).collect::<Vec<_>>().join(",")),
-        impl_out: {
-            // what the namer would answer for these requests in one shared directory (informational canonical line)
-            let mut v = vec![hex(b"doc.md")];
-            for i in 1..ndocs {
-                v.push(hex(format!("doc.md-{i}").as_bytes()));
-            }
-            v.join(",")
-        },
-        oracle_fail: keep(prop, fails),
-        nontrivial: false, // oracle-only stream
-        tags: vec![format!("e2e:mode={:?}", mode), format!("e2e:docs={ndocs}"), format!("e2e:exit={code}"), format!("e2e:cram={cram}")].into_iter().chain(kinds.iter().map(|k| format!("e2e:kind={:?}", k))).collect(),
+        op,
+        impl_out,
+        oracle_fail: keep_own(prop, fails),
+        nontrivial: ndocs >= 2,
+        tags: vec![format!("e2e:mode={:?}", mode), format!("e2e:docs={ndocs}"), format!("e2e:exit={code}")].into_iter().chain(specs.iter().map(|s| format!("e2e:kind={:?}", s.kind))).chain(specs.iter().map(|s| format!("e2e:cram={}", s.cram))).collect(),
     }
 }
 
@@ -259,7 +686,7 @@ fn concurrent_case(prop: &str, idx: u64, root: &Path) -> CaseRec {
         fails.push(("C18:leftover".into(), format!("TMPDIR still holds {:?} after three concurrent runs", left)));
     }
     let _ = std::fs::remove_dir_all(&dir);
-    CaseRec { op: format!("namer - {0},{0},{0}", hex(b"doc.md")), impl_out: format!("{},{},{}", hex(b"doc.md"), hex(b"doc.md-1"), hex(b"doc.md-2")), oracle_fail: keep(prop, fails), nontrivial: false, tags: vec!["e2e:concurrent".into()] }
+    CaseRec { op: format!("namer - {0},{0},{0}", hex(b"doc.md")), impl_out: format!("{},{},{}", hex(b"doc.md"), hex(b"doc.md-1"), hex(b"doc.md-2")), oracle_fail: keep_own(prop, fails), nontrivial: false, tags: vec!["e2e:concurrent".into()] }
 }
 
 /// an early abort (execution error in a later document) right after a document that left a large
@@ -306,14 +733,27 @@ fn abort_after_big_case(prop: &str, idx: u64, root: &Path) -> CaseRec {
         }
     }
     let _ = std::fs::remove_dir_all(&dir);
-    CaseRec { op: format!("namer - {0},{0}", hex(b"doc.md")), impl_out: format!("{},{}", hex(b"doc.md"), hex(b"doc.md-1")), oracle_fail: keep(prop, fails), nontrivial: false, tags: vec!["e2e:abort-after-big".into()] }
+    CaseRec { op: format!("namer - {0},{0}", hex(b"doc.md")), impl_out: format!("{},{}", hex(b"doc.md"), hex(b"doc.md-1")), oracle_fail: keep_own(prop, fails), nontrivial: false, tags: vec!["e2e:abort-after-big".into()] }
 }
 
 pub fn run(ctx: &Ctx, prop: &str) {
     let root = std::env::temp_dir().join(format!("scrut-verif-envdir-{}", std::process::id()));
     std::fs::create_dir_all(&root).unwrap();
     let seed = ctx.seed;
-    // 1. namer: exhaustive over request sequences up to length 4 over {a, a-1, b} x existing subsets of {a, a-1, a-2, b}
+    // 1. the real TestEnvironment in-process (environment.rs compiled into the harness) vs the model:
+    //    every mode x pre-existing names in the work directory x every document sequence up to length 3
+    let r2 = root.clone();
+    ctx.run_stream("env-api-exhaustive", API_EXHAUSTIVE_TOTAL, true, |idx| Some(api_exhaustive(prop, idx, &r2)));
+    let r2 = root.clone();
+    ctx.run_stream("env-api-random", if ctx.thorough { 2000 } else { 200 }, false, |idx| Some(api_random(prop, idx, seed, &r2)));
+    // 2. end-to-end runs of the binary vs the model of the document loop
+    let r2 = root.clone();
+    ctx.run_stream("e2e-runs", if ctx.thorough { 600 } else { 120 }, false, |idx| Some(e2e_case(prop, idx, seed, &r2)));
+    let r2 = root.clone();
+    ctx.run_stream("e2e-concurrent", if ctx.thorough { 10 } else { 2 }, false, |idx| Some(concurrent_case(prop, idx, &r2)));
+    let r2 = root.clone();
+    ctx.run_stream("e2e-abort-after-big", if ctx.thorough { 16 } else { 4 }, false, |idx| Some(abort_after_big_case(prop, idx, &r2)));
+    // 3. namer: exhaustive over request sequences up to length 4 over {a, a-1, b} x existing subsets of {a, a-1, a-2, b}
     let names = ["a", "a-1", "b"];
     let exist = ["a", "a-1", "a-2", "b"];
     let mut total = 0u64;
@@ -343,25 +783,38 @@ pub fn run(ctx: &Ctx, prop: &str) {
         let reqs: Vec<String> = (0..rng.range(1, 12)).map(|_| rng.pick(&pool).to_string()).collect();
         Some(namer_case(prop, ex, reqs, &r2, 1_000_000 + idx))
     });
-    // 2. end-to-end
-    let r2 = root.clone();
-    ctx.run_stream("e2e-runs", if ctx.thorough { 300 } else { 40 }, false, |idx| Some(e2e_case(prop, idx, seed, &r2)));
-    let r2 = root.clone();
-    ctx.run_stream("e2e-concurrent", if ctx.thorough { 10 } else { 2 }, false, |idx| Some(concurrent_case(prop, idx, &r2)));
-    let r2 = root.clone();
-    ctx.run_stream("e2e-abort-after-big", if ctx.thorough { 16 } else { 4 }, false, |idx| Some(abort_after_big_case(prop, idx, &r2)));
     let _ = std::fs::remove_dir_all(&root);
 }
 
-pub fn replay(_prop: &str, op: &str) -> bool {
+/// longer sequences, more names, on one environment
+fn api_random(prop: &str, idx: u64, seed: u64, root: &Path) -> CaseRec {
+    let mut rng = Rng::fork(seed, 32, idx);
+    let mode = *rng.pick(&API_MODES[..3]);
+    let files = ["doc.md", "doc.md-1", "a.t", "é.md", "__tmp", "x y.t"];
+    let pre: Vec<&str> = files.iter().filter(|_| rng.chance(1, 4)).copied().collect();
+    let docs: Vec<(usize, &str, bool)> = (0..rng.range(1, 8)).map(|_| (rng.range(0, 1), *rng.pick(&files), rng.chance(1, 3))).collect();
+    api_case(prop, mode, &pre, &docs, root, &format!("r{seed}-{idx}"))
+}
+
+pub fn replay(prop: &str, op: &str) -> bool {
     let parts: Vec<&str> = op.split_whitespace().collect();
-    if parts.len() != 3 {
-        return false;
-    }
-    let f = |s: &str| -> Vec<String> { if s == "-" { vec![] } else { s.split(',').map(|h| String::from_utf8_lossy(&unhex(h)).to_string()).collect() } };
     let root = std::env::temp_dir().join(format!("scrut-verif-envdir-replay-{}", std::process::id()));
     std::fs::create_dir_all(&root).unwrap();
-    let c = namer_case("C18", f(parts[1]), f(parts[2]), &root, 0);
+    let case = parts.last().and_then(|l| l.strip_prefix("case=")).map(|c| c.split('.').collect::<Vec<_>>());
+    let c = match (parts.first().copied(), case.as_deref()) {
+        (Some("envrun"), Some(["e2e", seed, idx])) => e2e_case(prop, idx.parse().unwrap_or(0), seed.parse().unwrap_or(1), &root),
+        (Some("envapi"), Some(["api", tag])) if tag.starts_with('x') => api_exhaustive(prop, tag[1..].parse().unwrap_or(0), &root),
+        (Some("envapi"), Some(["api", tag])) if tag.starts_with('r') => {
+            let (seed, idx) = tag[1..].split_once('-').unwrap_or(("1", "0"));
+            api_random(prop, idx.parse().unwrap_or(0), seed.parse().unwrap_or(1), &root)
+        }
+        (Some("namer"), _) if parts.len() == 3 => {
+            let f = |s: &str| -> Vec<String> { if s == "-" { vec![] } else { s.split(',').map(|h| String::from_utf8_lossy(&unhex(h)).to_string()).collect() } };
+            namer_case(prop, f(parts[1]), f(parts[2]), &root, 0)
+        }
+        _ => return false,
+    };
+    println!("op:   {}", c.op);
     println!("impl: {}", c.impl_out);
     for (cl, d) in &c.oracle_fail {
         println!("oracle-failure {cl}: {d}");
